@@ -38,8 +38,9 @@ def cases(draw):
         "spec": spec,
         "path": draw(st.sampled_from(build.BUILD_PATHS_LP)),
         "analysis": draw(st.sampled_from(["single_gene", "single_gene", "double_gene", "single_rxn", "double_rxn", "essential_genes", "essential_rxns"])),
-        "l1": draw(st.one_of(st.none(), st.lists(st.integers(0, 20), min_size=1, max_size=4))),
-        "l2": draw(st.one_of(st.none(), st.lists(st.integers(0, 20), min_size=1, max_size=3))),
+        # None = argument omitted (all entities); an explicitly empty list (a filter that matched nothing) requests nothing
+        "l1": draw(st.one_of(st.none(), st.lists(st.integers(0, 20), min_size=1, max_size=4), st.lists(st.integers(0, 20), min_size=0, max_size=4))),
+        "l2": draw(st.one_of(st.none(), st.lists(st.integers(0, 20), min_size=1, max_size=3), st.lists(st.integers(0, 20), min_size=0, max_size=3))),
         "as_ids": draw(st.booleans()),
         "container": draw(st.sampled_from(["list", "list", "dictlist"])),
         "method": draw(st.sampled_from(["fba", "fba", "fba", "linear moma"])),
